@@ -34,6 +34,11 @@ TChains ==
     /\ HasRec /\ Rec.ev = "chains" /\ pc = "none"
     /\ LET cs == [k \in DOMAIN Rec.chains |-> ChainOf(Rec.chains[k])]
        IN /\ \A k \in DOMAIN cs : ChainFits(cs[k], Rec.L)
+          \* OpChain.padded(L, idoid) as computed by the code: identities and zero charges on both sides, start site 0
+          /\ \A k \in DOMAIN cs : /\ Rec.padded[k].oids = PaddedOids(cs[k], Rec.L, Rec.idoid)
+                                   /\ Rec.padded[k].qnums = PaddedQnums(cs[k], Rec.L)
+                                   /\ Rec.padded[k].istart = 0 /\ Rec.padded[k].coeff = cs[k].coeff
+                                   /\ Rec.padded[k].eq_self /\ ~Rec.padded[k].eq_shifted
           /\ target' = ChainsPoly(cs, Rec.L, Rec.idoid)
           /\ nz' = Len(NonZero(cs))
     /\ L' = Rec.L /\ pc' = "sites"
